@@ -3,8 +3,10 @@ package main
 import (
 	"bytes"
 	"encoding/binary"
+	"encoding/hex"
 	"encoding/json"
 	"fmt"
+	"math"
 	"strconv"
 	"strings"
 
@@ -24,11 +26,67 @@ type c06Page struct {
 }
 
 type c06Case struct {
-	Kind       string    `json:"kind"` // "int64" or "bytes" (values are mapped to byte strings)
+	// Kind: "int64", "bytes" (values are mapped to byte strings), "float" or
+	// "double" (values are mapped to floating point numbers: 0 is a zero of
+	// either sign, its neighbours are denormals, the ends of the domain are the
+	// largest finite numbers and the infinities)
+	Kind       string    `json:"kind"`
 	NullsFirst bool      `json:"nulls_first"`
 	Ascending  bool      `json:"ascending"`
 	Pages      []c06Page `json:"pages"`
 	Probes     []int64   `json:"probes"`
+	// Zeros (float, double): bit 0: a zero page minimum is -0, bit 1: a zero
+	// page maximum is -0, bit 2: a zero probe is -0 (else +0). The two zeros are
+	// one value of the column order, whichever of them a page recorded.
+	Zeros int `json:"zeros,omitempty"`
+}
+
+// c06Double maps the integer domain [-8, 1001] to doubles, strictly increasing
+// apart from the two representations of zero.
+func c06Double(v int64, negZero bool, single bool) float64 {
+	tiny, denorm, least, most := 1e-300, math.Ldexp(1, -1040), math.SmallestNonzeroFloat64, math.MaxFloat64
+	if single {
+		tiny, denorm, least, most = 1e-30, math.Ldexp(1, -140), math.SmallestNonzeroFloat32, math.MaxFloat32
+	}
+	neg := v < 0
+	a := v
+	if neg {
+		a = -v
+	}
+	var f float64
+	switch {
+	case a == 0:
+		if negZero {
+			return math.Copysign(0, -1)
+		}
+		return 0
+	case a == 1:
+		f = least
+	case a == 2:
+		f = denorm
+	case a == 3:
+		f = tiny
+	case neg && a == 7 || !neg && a == 1000:
+		f = most
+	case neg && a >= 8 || !neg && a > 1000:
+		f = math.Inf(1)
+	default:
+		f = float64(a) * 1.5
+	}
+	if neg {
+		f = -f
+	}
+	return f
+}
+
+func (cs *c06Case) isFloat() bool { return cs.Kind == "float" || cs.Kind == "double" }
+
+// floatBytes is the PLAIN encoding of the floating point image of v.
+func (cs *c06Case) floatBytes(v int64, negZero bool) []byte {
+	if cs.Kind == "float" {
+		return binary.LittleEndian.AppendUint32(nil, math.Float32bits(float32(c06Double(v, negZero, true))))
+	}
+	return binary.LittleEndian.AppendUint64(nil, math.Float64bits(c06Double(v, negZero, false)))
 }
 
 // c06Bytes maps the small integer domain to byte strings whose lexicographic
@@ -55,17 +113,23 @@ func c06Build(cs *c06Case) (parquet.ColumnIndex, parquet.Type) {
 	for _, p := range cs.Pages {
 		idx.NullPages = append(idx.NullPages, p.Null)
 		var mn, mx []byte
-		if cs.Kind == "int64" {
+		switch {
+		case cs.Kind == "int64":
 			mn = binary.LittleEndian.AppendUint64(nil, uint64(p.Min))
 			mx = binary.LittleEndian.AppendUint64(nil, uint64(p.Max))
-		} else {
+		case cs.isFloat():
+			mn, mx = cs.floatBytes(p.Min, cs.Zeros&1 != 0), cs.floatBytes(p.Max, cs.Zeros&2 != 0)
+		default:
 			mn, mx = c06Bytes(p.Min), c06Bytes(p.Max)
 		}
 		if p.Null {
 			// the writer stores the zero value for null pages
-			if cs.Kind == "int64" {
+			switch cs.Kind {
+			case "int64", "double":
 				mn, mx = make([]byte, 8), make([]byte, 8)
-			} else {
+			case "float":
+				mn, mx = make([]byte, 4), make([]byte, 4)
+			default:
 				mn, mx = []byte{}, []byte{}
 			}
 		}
@@ -78,15 +142,25 @@ func c06Build(cs *c06Case) (parquet.ColumnIndex, parquet.Type) {
 	} else {
 		idx.BoundaryOrder = format.Unordered
 	}
-	if cs.Kind == "int64" {
+	switch cs.Kind {
+	case "int64":
 		return parquet.NewColumnIndex(parquet.Int64, idx), parquet.Int64Type
+	case "float":
+		return parquet.NewColumnIndex(parquet.Float, idx), parquet.FloatType
+	case "double":
+		return parquet.NewColumnIndex(parquet.Double, idx), parquet.DoubleType
 	}
 	return parquet.NewColumnIndex(parquet.ByteArray, idx), parquet.ByteArrayType
 }
 
 func c06Value(cs *c06Case, v int64) parquet.Value {
-	if cs.Kind == "int64" {
+	switch cs.Kind {
+	case "int64":
 		return parquet.Int64Value(v)
+	case "float":
+		return parquet.FloatValue(float32(c06Double(v, cs.Zeros&4 != 0, true)))
+	case "double":
+		return parquet.DoubleValue(c06Double(v, cs.Zeros&4 != 0, false))
 	}
 	return parquet.ByteArrayValue(c06Bytes(v))
 }
@@ -114,7 +188,11 @@ func c06WellFormed(cs *c06Case) bool {
 
 func c06Request(cs *c06Case) string {
 	var sb strings.Builder
-	if cs.Kind == "int64" {
+	// the floating point kinds are asked as integers: the map to floats is
+	// monotone and the column order identifies the two zeros, so the model's
+	// answer over the integer domain is the answer for the images
+	asZ := cs.Kind == "int64" || cs.isFloat()
+	if asZ {
 		sb.WriteString("c06.find_z ")
 	} else {
 		sb.WriteString("c06.find_bytes ")
@@ -129,7 +207,7 @@ func c06Request(cs *c06Case) string {
 		}
 		if p.Null {
 			sb.WriteString("N")
-		} else if cs.Kind == "int64" {
+		} else if asZ {
 			sb.WriteString(core.Zs(p.Min) + ":" + core.Zs(p.Max))
 		} else {
 			sb.WriteString(core.Hexs(c06Bytes(p.Min)) + ":" + core.Hexs(c06Bytes(p.Max)))
@@ -140,7 +218,7 @@ func c06Request(cs *c06Case) string {
 		if i > 0 {
 			sb.WriteByte(',')
 		}
-		if cs.Kind == "int64" {
+		if asZ {
 			sb.WriteString(core.Zs(v))
 		} else {
 			sb.WriteString(core.Hexs(c06Bytes(v)))
@@ -264,7 +342,7 @@ func c06VmCase(cs *c06Case, impl []int) string {
 }
 
 func runC06(c *core.Ctx) {
-	c.Res.Rule = "column indexes enumerated exhaustively over a small value domain (every null-page placement, every bounds combination, ascending claimed only when true of the non-null pages, and unordered) plus random larger indexes and indexes read back from written files; each probed with every domain value through Find with CompareNullsLast and CompareNullsFirst (and Search). A case is one (index, comparator, flag) with all probes; non-trivial = at least 2 pages; distinct by the JSON of the case."
+	c.Res.Rule = "column indexes enumerated exhaustively over a small value domain (every null-page placement, every bounds combination, ascending claimed only when true of the non-null pages, and unordered) for INT64, byte arrays, FLOAT and DOUBLE (the domain value 0 is a floating point zero whose sign is chosen independently for page minima, page maxima and probes; its neighbours are denormals, the ends are the largest finite numbers and the infinities) plus random larger indexes, each probed with every domain value through Find with CompareNullsLast and CompareNullsFirst (and Search); plus the column indexes of files produced by the writer (one column of every physical/logical kind with its own indexer: INT32, INT64, UINT_32, UINT_64, FLOAT, DOUBLE with both zeros / denormals / infinities / NaN runs, INT96, strings with 0xFF prefixes, FIXED_LEN_BYTE_ARRAY, UUID; required and optional with null runs; several row groups cut by MaxRowsPerRowGroup and by Flush; writers reused through Writer.Reset), searched for every value present in a page. A case is one (index, comparator, flag) with all probes, or one column chunk of a file; non-trivial = at least 2 pages; distinct by the JSON of the case."
 	var vm []string
 	addVm := func(cs *c06Case) {
 		if cs.Kind != "int64" || len(vm) >= 300 {
@@ -313,11 +391,14 @@ func runC06(c *core.Ctx) {
 		if depth > 0 || true {
 			for _, asc := range []bool{true, false} {
 				for _, nf := range []bool{false, true} {
-					for _, kind := range []string{"int64", "bytes"} {
-						if kind == "bytes" && (count%7 != 0) {
+					for ki, kind := range []string{"int64", "bytes", "double", "float"} {
+						if kind == "bytes" && (count%7 != 0) || kind == "double" && (count%3 != 0) || kind == "float" && (count%5 != 0) {
 							continue
 						}
 						cs := &c06Case{Kind: kind, NullsFirst: nf, Ascending: asc, Pages: append([]c06Page(nil), pages...), Probes: probes}
+						if cs.isFloat() {
+							cs.Zeros = (count/3 + ki) % 8
+						}
 						if !c06WellFormed(cs) {
 							continue
 						}
@@ -346,7 +427,10 @@ func runC06(c *core.Ctx) {
 	for i := 0; i < nRand; i++ {
 		n := 1 + c.Rng.Intn(24)
 		asc := c.Rng.Intn(3) != 0
-		cs := &c06Case{Kind: []string{"int64", "bytes"}[c.Rng.Intn(2)], NullsFirst: c.Rng.Intn(4) == 0, Ascending: asc}
+		cs := &c06Case{Kind: []string{"int64", "bytes", "double", "float"}[c.Rng.Intn(4)], NullsFirst: c.Rng.Intn(4) == 0, Ascending: asc}
+		if cs.isFloat() {
+			cs.Zeros = c.Rng.Intn(8)
+		}
 		lo, hi := int64(-4), int64(-4)
 		for p := 0; p < n; p++ {
 			if c.Rng.Intn(4) == 0 {
@@ -370,6 +454,26 @@ func runC06(c *core.Ctx) {
 		}
 		for v := int64(-6); v < 34; v++ {
 			cs.Probes = append(cs.Probes, v)
+		}
+		if cs.isFloat() {
+			// the ends of the floating point domain: -Inf, -Max in the first
+			// non-null page, +Max, +Inf in the last one (an ascending index stays so)
+			first, last := -1, -1
+			for p, pg := range cs.Pages {
+				if !pg.Null {
+					if first < 0 {
+						first = p
+					}
+					last = p
+				}
+			}
+			if first >= 0 && c.Rng.Intn(3) == 0 {
+				cs.Pages[first].Min = -8 + int64(c.Rng.Intn(2))
+			}
+			if last >= 0 && c.Rng.Intn(3) == 0 {
+				cs.Pages[last].Max = 1000 + int64(c.Rng.Intn(2))
+			}
+			cs.Probes = append(cs.Probes, -8, -7, 1000, 1001)
 		}
 		if cs.Kind == "bytes" {
 			// keep inside the order-preserving byte domain
@@ -443,115 +547,458 @@ func c06Shrink(c *core.Ctx, cs *c06Case) *c06Case {
 	return &cur
 }
 
-// c06Files: indexes produced by the writer itself, searched for every value
-// that is actually present in a page.
-func c06Files(c *core.Ctx) {
-	type row struct {
-		A *int64   `parquet:"a,optional"`
-		B string   `parquet:"b"`
-		U [16]byte `parquet:"u,uuid"`
+// ---------------------------------------------------------------- files
+
+// c06File: one column written by the library's writer; the column index of
+// every row group is searched for every value that is present in a page.
+type c06File struct {
+	Col     string   `json:"column"`
+	Opt     bool     `json:"optional,omitempty"`
+	Vals    []string `json:"vals"` // per row the PLAIN bytes of the value in hex, "N" = null
+	PageBuf int      `json:"page_buffer_size"`
+	Limit   int      `json:"column_index_size_limit"`
+	Batch   int      `json:"write_batch"`
+	MaxRows int64    `json:"max_rows_per_row_group,omitempty"`
+	Flush   int      `json:"flush_every,omitempty"` // Writer.Flush after every Flush rows
+	// Reuse: the Writer first wrote the same rows (second half first) to another
+	// output, was closed, and was Reset to the output of this file
+	Reuse bool `json:"writer_reuse,omitempty"`
+}
+
+// c06Col is a kind of column (one per ColumnIndexer implementation and per
+// comparison): enc maps the integers monotonically into the column order, r
+// supplies low-order noise.
+type c06Col struct {
+	name string
+	node func() parquet.Node
+	enc  func(v int64, r uint64) []byte
+	nan  func(r uint64) []byte
+}
+
+func c06FileDouble(v int64, r uint64, single bool) float64 {
+	// ... -Inf, -Max, ..., -denormals, a plateau of zeros of both signs,
+	// denormals, ..., +Max, +Inf
+	switch {
+	case v >= -4 && v <= 4:
+		v = 0
+	case v > 4:
+		v -= 4
+	default:
+		v += 4
 	}
-	nFiles := c.N(40, 600)
+	if v > 300 {
+		v += 700
+	}
+	if v < -8 {
+		v = -8
+	}
+	if v > 1001 {
+		v = 1001
+	}
+	return c06Double(v, r&1 != 0, single)
+}
+
+var c06Cols = []c06Col{
+	{name: "int64", node: func() parquet.Node { return parquet.Leaf(parquet.Int64Type) },
+		enc: func(v int64, r uint64) []byte { return binary.LittleEndian.AppendUint64(nil, uint64(v)) }},
+	{name: "int32", node: func() parquet.Node { return parquet.Leaf(parquet.Int32Type) },
+		enc: func(v int64, r uint64) []byte { return binary.LittleEndian.AppendUint32(nil, uint32(int32(v))) }},
+	// unsigned: the images cross the sign bit
+	{name: "uint32", node: func() parquet.Node { return parquet.Uint(32) },
+		enc: func(v int64, r uint64) []byte {
+			return binary.LittleEndian.AppendUint32(nil, uint32(v+100)<<22|uint32(r%4))
+		}},
+	{name: "uint64", node: func() parquet.Node { return parquet.Uint(64) },
+		enc: func(v int64, r uint64) []byte { return binary.LittleEndian.AppendUint64(nil, uint64(v+100)<<54|r%4) }},
+	{name: "float", node: func() parquet.Node { return parquet.Leaf(parquet.FloatType) },
+		enc: func(v int64, r uint64) []byte {
+			return binary.LittleEndian.AppendUint32(nil, math.Float32bits(float32(c06FileDouble(v, r, true))))
+		},
+		nan: func(r uint64) []byte {
+			return binary.LittleEndian.AppendUint32(nil, []uint32{0x7fc00000, 0xffc00001, 0x7f800001}[r%3])
+		}},
+	{name: "double", node: func() parquet.Node { return parquet.Leaf(parquet.DoubleType) },
+		enc: func(v int64, r uint64) []byte {
+			return binary.LittleEndian.AppendUint64(nil, math.Float64bits(c06FileDouble(v, r, false)))
+		},
+		nan: func(r uint64) []byte {
+			return binary.LittleEndian.AppendUint64(nil, []uint64{0x7ff8000000000000, 0xfff8000000000001, 0x7ff0000000000001}[r%3])
+		}},
+	// INT96: little-endian words, the most significant one is signed
+	{name: "int96", node: func() parquet.Node { return parquet.Leaf(parquet.Int96Type) },
+		enc: func(v int64, r uint64) []byte {
+			b := binary.LittleEndian.AppendUint32(nil, uint32(r%4)<<30)
+			b = binary.LittleEndian.AppendUint32(b, uint32(v+100)<<22)
+			return binary.LittleEndian.AppendUint32(b, uint32(int32(v/8)-3))
+		}},
+	// long 0xFF prefixes: the truncated maximum cannot be incremented
+	{name: "string", node: func() parquet.Node { return parquet.String() },
+		enc: func(v int64, r uint64) []byte {
+			return []byte(fmt.Sprintf("%s%04d", strings.Repeat("\xff", int(v+100)/90), v+100))
+		}},
+	{name: "flba6", node: func() parquet.Node { return parquet.Leaf(parquet.FixedLenByteArrayType(6)) },
+		enc: func(v int64, r uint64) []byte {
+			return binary.BigEndian.AppendUint32([]byte{0xff, 0xff}, uint32(v+100)<<22|uint32(r%4))
+		}},
+	// 16 bytes: the values share their high half and differ in the top bit of
+	// the low half (unsigned order of both halves)
+	{name: "uuid", node: func() parquet.Node { return parquet.UUID() },
+		enc: func(v int64, r uint64) []byte {
+			var u [16]byte
+			u[7] = 1
+			binary.BigEndian.PutUint64(u[8:], uint64(v+100)<<54|r%4)
+			return u[:]
+		}},
+}
+
+func c06ColByName(name string) *c06Col {
+	for i := range c06Cols {
+		if c06Cols[i].name == name {
+			return &c06Cols[i]
+		}
+	}
+	return nil
+}
+
+func (fc *c06File) write() (data []byte, err string) {
+	defer func() {
+		if r := recover(); r != nil {
+			err = fmt.Sprintf("panic while writing: %v", r)
+		}
+	}()
+	col := c06ColByName(fc.Col)
+	node := col.node()
+	kind := node.Type().Kind()
+	if fc.Opt {
+		node = parquet.Optional(node)
+	} else {
+		node = parquet.Required(node)
+	}
+	rows := make([]parquet.Row, len(fc.Vals))
+	for i, t := range fc.Vals {
+		if t == "N" {
+			rows[i] = parquet.Row{parquet.Value{}.Level(0, 0, 0)}
+			continue
+		}
+		b, e := hex.DecodeString(t)
+		if e != nil {
+			return nil, e.Error()
+		}
+		def := 0
+		if fc.Opt {
+			def = 1
+		}
+		rows[i] = parquet.Row{kind.Value(b).Level(0, def, 0)}
+	}
+	lim := fc.Limit
+	opts := []parquet.WriterOption{parquet.NewSchema("t", parquet.Group{"c": node}), parquet.PageBufferSize(fc.PageBuf), parquet.ColumnIndexSizeLimit(func([]string) int { return lim })}
+	if fc.MaxRows > 0 {
+		opts = append(opts, parquet.MaxRowsPerRowGroup(fc.MaxRows))
+	}
+	batch := fc.Batch
+	if batch <= 0 {
+		batch = 7
+	}
+	writeAll := func(w *parquet.Writer, rows []parquet.Row) string {
+		sinceFlush := 0
+		for i := 0; i < len(rows); {
+			j := i + batch
+			if fc.Flush > 0 && j-i > fc.Flush-sinceFlush {
+				j = i + fc.Flush - sinceFlush
+			}
+			if j > len(rows) {
+				j = len(rows)
+			}
+			if _, e := w.WriteRows(rows[i:j]); e != nil {
+				return "WriteRows: " + e.Error()
+			}
+			sinceFlush += j - i
+			i = j
+			if fc.Flush > 0 && sinceFlush >= fc.Flush && i < len(rows) {
+				if e := w.Flush(); e != nil {
+					return "Flush: " + e.Error()
+				}
+				sinceFlush = 0
+			}
+		}
+		return ""
+	}
+	var buf, scratch bytes.Buffer
+	var w *parquet.Writer
+	if fc.Reuse {
+		w = parquet.NewWriter(&scratch, opts...)
+		h := len(rows) / 2
+		if e := writeAll(w, append(append([]parquet.Row(nil), rows[h:]...), rows[:h]...)); e != "" {
+			return nil, "earlier file: " + e
+		}
+		if e := w.Close(); e != nil {
+			return nil, "earlier file: Close: " + e.Error()
+		}
+		w.Reset(&buf)
+	} else {
+		w = parquet.NewWriter(&buf, opts...)
+	}
+	if e := writeAll(w, rows); e != "" {
+		return nil, e
+	}
+	if e := w.Close(); e != nil {
+		return nil, "Close: " + e.Error()
+	}
+	return buf.Bytes(), ""
+}
+
+func c06IsNaN(v parquet.Value) bool {
+	switch v.Kind() {
+	case parquet.Float:
+		return v.Float() != v.Float()
+	case parquet.Double:
+		return v.Double() != v.Double()
+	}
+	return false
+}
+
+func c06Show(v parquet.Value) string {
+	switch v.Kind() {
+	case parquet.ByteArray, parquet.FixedLenByteArray:
+		return hex.EncodeToString(v.Bytes())
+	case parquet.Float:
+		return fmt.Sprintf("%v (bits %08x)", v, math.Float32bits(v.Float()))
+	case parquet.Double:
+		return fmt.Sprintf("%v (bits %016x)", v, math.Float64bits(v.Double()))
+	}
+	return fmt.Sprint(v)
+}
+
+// c06FileCheck writes the file and evaluates the property on every column
+// index of it; record switches the coverage records on.
+func c06FileCheck(c *core.Ctx, fc *c06File, record bool) (ok bool) {
+	data, werr := fc.write()
+	if werr != "" {
+		c.Violation("file-write-error", werr, fc)
+		return false
+	}
+	ok = true
+	defer func() {
+		if r := recover(); r != nil {
+			c.Violation("file-search-panic", fmt.Sprint(r), fc)
+			ok = false
+		}
+	}()
+	pf, err := parquet.OpenFile(bytes.NewReader(data), int64(len(data)))
+	if err != nil {
+		c.Violation("file-open-error", err.Error(), fc)
+		return false
+	}
+	rowsSeen := 0
+	for rgi, rg := range pf.RowGroups() {
+		cc := rg.ColumnChunks()[0]
+		ix, err := cc.ColumnIndex()
+		if err != nil || ix == nil {
+			c.Violation("file-no-column-index", fmt.Sprintf("row group %d: %v", rgi, err), fc)
+			return false
+		}
+		typ := cc.Type()
+		pages := cc.Pages()
+		pn := 0
+		npages := ix.NumPages()
+		where := fmt.Sprintf("%s column, row group %d", fc.Col, rgi)
+		if fc.Reuse {
+			where += " of a file written after Writer.Reset"
+		}
+		for {
+			pg, err := pages.ReadPage()
+			if err != nil {
+				break
+			}
+			vals := make([]parquet.Value, pg.NumValues())
+			k, _ := pg.Values().ReadValues(vals)
+			rowsSeen += k
+			for _, val := range vals[:k] {
+				if val.IsNull() || c06IsNaN(val) {
+					continue
+				}
+				r := parquet.Search(ix, val, typ)
+				if record {
+					c.Res.Evaluations++
+				}
+				if r > pn {
+					c.Violation("file-missed-page", fmt.Sprintf("%s: value %s is in page %d of %d but Search returned %d (ascending=%v, recorded bounds of page %d: [%s,%s])", where, c06Show(val), pn, npages, r, ix.IsAscending(), pn, c06Show(ix.MinValue(pn)), c06Show(ix.MaxValue(pn))), fc)
+					ok = false
+				} else if r < npages {
+					cl := parquet.CompareNullsLast(typ.Compare)
+					if cl(ix.MinValue(r), val) > 0 || cl(val, ix.MaxValue(r)) > 0 {
+						c.Violation("file-result-does-not-contain", fmt.Sprintf("%s: Search(%s) returned page %d whose bounds [%s,%s] exclude it", where, c06Show(val), r, c06Show(ix.MinValue(r)), c06Show(ix.MaxValue(r))), fc)
+						ok = false
+					}
+				}
+			}
+			parquet.Release(pg)
+			pn++
+			if !ok {
+				break
+			}
+		}
+		pages.Close()
+		if !ok {
+			return false
+		}
+		if pn != npages {
+			c.Violation("file-page-count", fmt.Sprintf("%s: the column index has %d pages, %d pages were read", where, npages, pn), fc)
+			return false
+		}
+		if record {
+			key, _ := json.Marshal(fc)
+			bucket := fmt.Sprintf("file/%s/asc=%v", fc.Col, ix.IsAscending())
+			if rgi > 0 || fc.Reuse {
+				bucket = fmt.Sprintf("file/%s/after-reset/asc=%v", fc.Col, ix.IsAscending())
+			}
+			c.Case(bucket, fmt.Sprintf("%s rg %d", key, rgi), npages >= 2)
+		}
+	}
+	if rowsSeen != len(fc.Vals) {
+		c.Violation("file-row-count", fmt.Sprintf("%d rows written, %d values read back", len(fc.Vals), rowsSeen), fc)
+		return false
+	}
+	return ok
+}
+
+func c06FileShrink(c *core.Ctx, fc *c06File) *c06File {
+	cur := *fc
+	fails := func(t *c06File) bool { return c.Probe(func() { c06FileCheck(c, t, false) }) }
+	budget := 900
+	for progress := true; progress && budget > 0; {
+		progress = false
+		// shorter row groups (the later row groups survive with fewer rows)
+		for _, f := range []func(t *c06File) bool{
+			func(t *c06File) bool { t.MaxRows /= 2; return t.MaxRows >= 1 },
+			func(t *c06File) bool { t.Flush /= 2; return t.Flush >= 1 },
+			func(t *c06File) bool { t.MaxRows--; return t.MaxRows >= 1 },
+			func(t *c06File) bool { t.Flush--; return t.Flush >= 1 },
+		} {
+			for budget > 0 {
+				t := cur
+				budget--
+				if !f(&t) || !fails(&t) {
+					break
+				}
+				cur, progress = t, true
+			}
+		}
+		for size := len(cur.Vals) / 2; size >= 1 && budget > 0; {
+			removed := false
+			for from := 0; from+size <= len(cur.Vals) && budget > 0; {
+				t := cur
+				t.Vals = append(append([]string(nil), cur.Vals[:from]...), cur.Vals[from+size:]...)
+				budget--
+				if len(t.Vals) > 0 && fails(&t) {
+					cur, removed, progress = t, true, true
+				} else {
+					from += size
+				}
+			}
+			if !removed || size > len(cur.Vals) {
+				size /= 2
+			}
+		}
+	}
+	for _, f := range []func(t *c06File){
+		func(t *c06File) { t.Reuse = false },
+		func(t *c06File) { t.Flush = 0 },
+		func(t *c06File) { t.MaxRows = 0 },
+		func(t *c06File) { t.Opt = false },
+	} {
+		t := cur
+		f(&t)
+		if t.Opt != cur.Opt {
+			hasNull := false
+			for _, v := range t.Vals {
+				hasNull = hasNull || v == "N"
+			}
+			if hasNull {
+				continue
+			}
+		}
+		if fails(&t) {
+			cur = t
+		}
+	}
+	return &cur
+}
+
+func c06FileRun(c *core.Ctx, fc *c06File) bool {
+	if c.Probe(func() { c06FileCheck(c, fc, false) }) {
+		c06FileCheck(c, c06FileShrink(c, fc), false)
+		return false
+	}
+	return c06FileCheck(c, fc, true)
+}
+
+// c06Files: indexes produced by the writer itself. Every kind of column in
+// turn; sorted and unsorted data; runs of nulls and of NaN; files of one and of
+// several row groups; new and reused writers.
+func c06Files(c *core.Ctx) {
+	nFiles := c.N(30, 200) * len(c06Cols)
 	for f := 0; f < nFiles; f++ {
-		var rows []row
+		col := &c06Cols[f%len(c06Cols)]
 		n := 50 + c.Rng.Intn(400)
+		fc := &c06File{Col: col.name, Opt: c.Rng.Intn(2) == 0, PageBuf: 64 + c.Rng.Intn(200), Limit: 3 + c.Rng.Intn(4), Batch: 1 + c.Rng.Intn(20)}
+		// the history of the column writer: about two files in three have later
+		// row groups or a reused writer
+		switch (f / len(c06Cols)) % 3 {
+		case 0:
+			fc.MaxRows = int64(n/(2+c.Rng.Intn(4)) + 1)
+		case 1:
+			fc.Flush = n/(2+c.Rng.Intn(4)) + 1
+			fc.Reuse = c.Rng.Intn(2) == 0
+		default:
+			fc.Reuse = c.Rng.Intn(3) == 0
+		}
 		sorted := c.Rng.Intn(3) != 0
 		v := int64(c.Rng.Intn(10)) - 20
 		for i := 0; i < n; {
 			run := 1 + c.Rng.Intn(40)
-			null := c.Rng.Intn(3) == 0
+			null := fc.Opt && c.Rng.Intn(3) == 0
+			nan := col.nan != nil && c.Rng.Intn(8) == 0
+			zeros := c.Rng.Intn(6) == 0 // a run around the zero of the domain
+			flat := c.Rng.Intn(4) == 0  // a run of one value (often longer than a page)
 			for k := 0; k < run && i < n; k, i = k+1, i+1 {
-				if sorted {
+				if flat && k > 0 {
+					// v stays
+				} else if sorted {
 					v += int64(c.Rng.Intn(3))
+				} else if zeros {
+					v = int64(c.Rng.Intn(13)) - 6
 				} else {
 					v = int64(c.Rng.Intn(100)) - 50
 				}
-				// long 0xFF prefixes (the truncated maximum cannot be incremented) and
-				// 16-byte values that share their high half and differ in the top bit
-				// of the low half (unsigned order of both halves)
-				s := fmt.Sprintf("%s%04d", strings.Repeat("\xff", c.Rng.Intn(8)), v+100)
-				var u [16]byte
-				u[7] = byte(f % 2)
-				binary.BigEndian.PutUint64(u[8:], uint64(v+100)<<54|uint64(c.Rng.Intn(4)))
-				if null {
-					rows = append(rows, row{B: s, U: u})
-				} else {
-					x := v
-					rows = append(rows, row{A: &x, B: s, U: u})
+				switch {
+				case null:
+					fc.Vals = append(fc.Vals, "N")
+				case nan:
+					fc.Vals = append(fc.Vals, hex.EncodeToString(col.nan(c.Rng.Uint64())))
+				default:
+					fc.Vals = append(fc.Vals, hex.EncodeToString(col.enc(v, c.Rng.Uint64())))
 				}
 			}
 		}
-		var buf bytes.Buffer
-		lim := 3 + c.Rng.Intn(4)
-		w := parquet.NewGenericWriter[row](&buf, parquet.PageBufferSize(64+c.Rng.Intn(200)), parquet.ColumnIndexSizeLimit(func([]string) int { return lim }))
-		for i := 0; i < len(rows); {
-			k := 1 + c.Rng.Intn(20)
-			if i+k > len(rows) {
-				k = len(rows) - i
-			}
-			if _, err := w.Write(rows[i : i+k]); err != nil {
-				c.Violation("file-write-error", err.Error(), nil)
-				return
-			}
-			i += k
+		if !c06FileRun(c, fc) {
+			continue
 		}
-		if err := w.Close(); err != nil {
-			c.Violation("file-write-error", err.Error(), nil)
-			return
-		}
-		pf, err := parquet.OpenFile(bytes.NewReader(buf.Bytes()), int64(buf.Len()))
-		if err != nil {
-			c.Violation("file-open-error", err.Error(), nil)
-			return
-		}
-		for _, rg := range pf.RowGroups() {
-			for ci, cc := range rg.ColumnChunks() {
-				ix, err := cc.ColumnIndex()
-				if err != nil || ix == nil {
-					continue
-				}
-				typ := cc.Type()
-				pages := cc.Pages()
-				pn := 0
-				npages := ix.NumPages()
-				for {
-					pg, err := pages.ReadPage()
-					if err != nil {
-						break
-					}
-					vals := make([]parquet.Value, pg.NumValues())
-					k, _ := pg.Values().ReadValues(vals)
-					for _, val := range vals[:k] {
-						if val.IsNull() {
-							continue
-						}
-						r := parquet.Search(ix, val, typ)
-						c.Res.Evaluations++
-						if r > pn {
-							c.Violation("file-missed-page", fmt.Sprintf("column %d: value %v is in page %d of %d but Search returned %d (ascending=%v)", ci, val, pn, npages, r, ix.IsAscending()),
-								map[string]any{"rows": rows, "column": ci, "page": pn, "value": val.String()})
-						} else if r < npages {
-							cl := parquet.CompareNullsLast(typ.Compare)
-							if cl(ix.MinValue(r), val) > 0 || cl(val, ix.MaxValue(r)) > 0 {
-								c.Violation("file-result-does-not-contain", fmt.Sprintf("column %d: Search(%v) returned page %d whose bounds [%v,%v] exclude it", ci, val, r, ix.MinValue(r), ix.MaxValue(r)), map[string]any{"rows": rows, "column": ci})
-							}
-						}
-					}
-					parquet.Release(pg)
-					pn++
-				}
-				pages.Close()
-				key := fmt.Sprintf("file %d col %d pages %d asc %v", f, ci, npages, ix.IsAscending())
-				c.Case(fmt.Sprintf("file/asc=%v", ix.IsAscending()), key, npages >= 2)
-			}
+		if f < len(c06Cols) && f%4 == 0 {
+			c.Sample(map[string]any{"file_column": fc.Col, "rows": len(fc.Vals), "max_rows_per_row_group": fc.MaxRows, "flush_every": fc.Flush, "writer_reuse": fc.Reuse})
 		}
 	}
 }
 
 func replayC06(c *core.Ctx, raw json.RawMessage) {
+	var fc c06File
+	if err := json.Unmarshal(raw, &fc); err == nil && fc.Col != "" && c06ColByName(fc.Col) != nil {
+		c06FileCheck(c, &fc, true)
+		return
+	}
 	var cs c06Case
 	if err := json.Unmarshal(raw, &cs); err != nil || cs.Kind == "" {
-		c.Note("replay is not an in-memory index case; rerun the check with the recorded seed")
+		c.Note("replay is neither an index case nor a file case; rerun the check with the recorded seed")
 		return
 	}
 	c06Run(c, &cs, "replay", true)
